@@ -512,6 +512,17 @@ CORPUS = [
 ]
 
 
+def _guard(ctx: fw.Ctx, fn: Any, *args: Any) -> None:
+    import traceback
+    try:
+        fn(*args)
+    except Exception:
+        ctx.count('harness_errors', 'gate-scenario')
+        if not getattr(ctx, '_c17_gate_err', False):
+            ctx._c17_gate_err = True          # type: ignore[attr-defined]
+            ctx.correspondence_break('harness:gate-scenario', {'error': traceback.format_exc()[-2500:]})
+
+
 def run_gate(ctx: fw.Ctx) -> None:
     logging.disable(logging.CRITICAL)
     structural_check(ctx)
@@ -519,7 +530,7 @@ def run_gate(ctx: fw.Ctx) -> None:
     cases: list[fw.Case] = []
     n = 0
     for sc in CORPUS:
-        run_scenario(ctx, sc, cases)
+        _guard(ctx, run_scenario, ctx, sc, cases)
         n += 1
     ctx.count('gate_scenarios', 'corpus', n)
     # bounded-exhaustive: every interleaving of the initial listings of two kinds with <= 2 pre-existing objects each
@@ -534,7 +545,7 @@ def run_gate(ctx: fw.Ctx) -> None:
                     for limit in ((None, 2) if not ctx.thorough else (None, 1, 2, 3)):
                         if limit is not None and limit < max(n0 if ix0 else 0, n1 if ix1 else 0):
                             continue            # F11 region: covered by the corpus and the random part
-                        run_scenario(ctx, {'kinds': kinds, 'limit': limit, 'order': order}, cases)
+                        _guard(ctx, run_scenario, ctx, {'kinds': kinds, 'limit': limit, 'order': order}, cases)
                         n += 1
     ctx.count('gate_scenarios', 'exhaustive-2-kinds', n)
     # random: three kinds, partial settling (several items arrive before the loop runs), limits, second rounds
@@ -549,6 +560,6 @@ def run_gate(ctx: fw.Ctx) -> None:
         if nk == 3 and r.random() < 0.3:
             sc['rounds'] = [[0, 1], [2]]
             sc['round2_at'] = r.randrange(len(order))
-        run_scenario(ctx, sc, cases)
+        _guard(ctx, run_scenario, ctx, sc, cases)
     ctx.count('gate_scenarios', 'random', ctx.scale(150, 2000))
     ctx.differential('gate_trace', GHEADER, cases, shard=60)
